@@ -7,7 +7,8 @@ import (
 	"pgregory.net/rapid"
 )
 
-var portAlphabet = []PortSpec{{"TCP", 80}, {"TCP", 443}, {"UDP", 53}, {"TCP", 8080}}
+// the same port number appears under two protocols: (protocol, port) pairs, not numbers, are what two sharers must keep disjoint
+var portAlphabet = []PortSpec{{"TCP", 80}, {"TCP", 443}, {"UDP", 53}, {"TCP", 53}, {"UDP", 80}}
 
 func GenPorts(rt *rapid.T) []PortSpec {
 	n := rapid.SampledFrom([]int{1, 1, 1, 2, 2, 3}).Draw(rt, "nports")
